@@ -1,6 +1,8 @@
 /* Monitor for C19: pixman_fill / pixman_blt against a byte model on guarded exact-size storage,
  * pixman_image_fill_boxes / fill_rectangles against compositing a solid image box by box. */
 #include "vf.h"
+/* run for C04 (--prop C04) the behavioural oracles stay silent: that run only watches memory safety (ASan / guard pages) */
+#define vf_violation(...) do { if (!strcmp (vf.prop, "C19")) (vf_violation) (__VA_ARGS__); } while (0)
 #include "vf_req.h"
 #include "ref_pixel.h"
 #include "ref_ops.h"
@@ -102,10 +104,12 @@ static void boxes_case (vf_rng *r)
     pixman_op_t op = vf_chance (r, 1, 2) ? VF_PICK (r, common) : ro_ops[vf_next (r) % ro_nops];
     int n = (int)vf_range (r, 0, 10);
     pixman_box32_t bx[10]; pixman_rectangle16_t rc[10];
-    int use_rects = vf_chance (r, 1, 3);
+    int use_rects = vf_chance (r, 1, 3), far_edge = 0;
     for (int i = 0; i < n; i++) {
         int x1 = (int)vf_range (r, -3, D.w + 1), y1 = (int)vf_range (r, -2, D.h), w = (int)vf_range (r, 0, D.w / 2 + 4), h = (int)vf_range (r, 0, D.h / 2 + 2);
         if (use_rects && x1 < -3) x1 = -3;
+        /* "to the far edge": extents far beyond the image, up to the limits of the 16-bit rectangle type (x + width above 32767) */
+        if (vf_chance (r, 1, 7)) { if (vf_chance (r, 2, 3)) w = vf_chance (r, 1, 2) ? 0xffff : (int)vf_range (r, 0x7ff0, 0xffff); if (vf_chance (r, 2, 3)) h = vf_chance (r, 1, 2) ? 0xffff : (int)vf_range (r, 0x7ff0, 0xffff); far_edge = 1; }
         bx[i].x1 = x1; bx[i].y1 = y1; bx[i].x2 = x1 + w; bx[i].y2 = y1 + h;
         rc[i].x = (int16_t)x1; rc[i].y = (int16_t)y1; rc[i].width = (uint16_t)w; rc[i].height = (uint16_t)h;
     }
@@ -118,7 +122,7 @@ static void boxes_case (vf_rng *r)
     /* reference: composite the solid over each box, in order */
     vf_inflight ("reference compositing for: %s", desc);
     for (int i = 0; i < n; i++) pixman_image_composite32 (op, q2.src.img, NULL, q2.dst.img, 0, 0, 0, 0, bx[i].x1, bx[i].y1, bx[i].x2 - bx[i].x1, bx[i].y2 - bx[i].y1);
-    vf_count ("evaluations", 1); vf_count ("fill_boxes_calls", 1);
+    vf_count ("evaluations", 1); vf_count ("fill_boxes_calls", 1); if (far_edge) vf_count (use_rects ? "fill_rectangles_beyond_32767" : "fill_boxes_far_edge", 1);
     vf_label ("boxes_op_fmt", "%s/%s", ro_op_name (op), rp_name (D.fmt));
     vf_cell ("cells", vf_mix (vf_mix (3, op), vf_mix ((uint32_t)D.fmt, (c.alpha == 0xffff) + 2 * (D.n_clip > 0) + 4 * D.alpha_map + 8 * D.accessors + 16 * use_rects + 32 * (n > 2))));
     if (!ok) vf_violation ("C19:fill_boxes-returns-false", "returned FALSE without an allocation failure");
